@@ -1932,7 +1932,7 @@ def exists_model(eng, pred, c, init, node):
     eng.assume(V.Implies(V.Not(r), V.Not(i0)))
     eng.assume(V.Implies(r, V.Or(i0, V.And(w >= 0, w < n, P(w)))))
     if hasattr(eng, "add_index_term"):
-        eng.add_index_term(w)
+        eng.add_index_term(w, over=c)
     return r
 
 
